@@ -375,6 +375,20 @@ struct ArraysWorld : World {
 				break;
 			}
 			case OP_RESERVE: {
+				if ((op.c % 31) == 7) {
+					// sizes and offsets no allocation can satisfy: every entry point refuses, nothing changes (the size arithmetic must not wrap)
+					size_t big = SIZE_MAX - (size_t) (op.c % 200);
+					void *r1, *r2, *r3, *r5; buffer *r4;
+					{ Sut s; r1 = mpt_array_slice(AR(H[h]), big, ES); }
+					{ Sut s; r2 = mpt_array_insert(AR(H[h]), big - big % ES, ES); }
+					{ Sut s; r3 = mpt_array_append(AR(H[h]), big - big % ES, 0); }
+					{ Sut s; r4 = mpt_array_reserve(AR(H[h]), big - big % ES, traits); }
+					{ Sut s; r5 = mpt_array_slice(AR(H[h]), 0, big - big % ES); }
+					log.ev("HUGE %d size %zx -> slice %s insert %s append %s reserve %s slice-len %s", h, big, r1 ? "ok" : "null", r2 ? "ok" : "null", r3 ? "ok" : "null", r4 ? "ok" : "null", r5 ? "ok" : "null");
+					if (r1 || r2 || r3 || r4 || r5) fail("accepted-invalid", "a request of %zx bytes was accepted (slice-offset %d insert %d append %d reserve %d slice-length %d)", big, !!r1, !!r2, !!r3, !!r4, !!r5);
+					st.hit("probe:huge_size_requested");
+					break;
+				}
 				bool other = (op.c % 5) == 0;
 				const type_traits *tt = traits;
 				if (other) tt = kind == K_RAW ? chartraits : (kind == K_CHAR ? 0 : (ES == 16 && (op.c & 32) ? &OTHER16 : 0));
